@@ -38,6 +38,7 @@ TEXTS = [
     'so  dass so\n   dass one  two\n three A  B\tC',
     'Die R&D Abteilung, R und D, Q&A &c. und AT&T R& D',
     'so\xa0dass wir z.\u202fB. so \xa0 dass und z.\xa0\nB. aber so\xa0\n\u202f\ndass',
+    'je 3 cm und 3 cmx, cm 3 und cm 34, x3 cm so dass 3\ncm.',
 ]
 RULES = [
     ['so dass & sodass'],
@@ -59,6 +60,9 @@ RULES = [
     ['z. B. & zum Beispiel', 'so dass & sodass'],
     # only a '&' that stands alone separates the two sides
     ['R&D & Forschung', '&c. & etc.', 'Q&A & Fragen & Antworten', 'R& D & X'],
+    # lines without any '&': either ignored or a phrase with an empty right-hand side (see ref_parse)
+    ['3 cm', 'cm 3'],
+    ['so dass', '3 cm # c', 'und & and'],
 ]
 
 
@@ -68,13 +72,17 @@ def _isw(c):
     return c.isalnum() or c == '_'
 
 
-def ref_parse(line):
+def ref_parse(line, bare='ignore'):
     i = line.find('#')
     if i >= 0:
         line = line[:i]
     ws = line.split()
     if '&' not in ws:
-        return None          # behaviour without '&' is not stated: such lines are not generated
+        # behaviour without '&' is not stated.  Two readings are accepted: the line is ignored, or
+        # it is a phrase with an empty right-hand side -- then under the stated matching rules
+        if bare == 'ignore' or not ws:
+            return None
+        return ws, ''
     k = ws.index('&')
     if k == 0:
         return None          # no left-hand side: ignored
@@ -125,10 +133,14 @@ def ref_apply(txt, idx, words, repl):
     return o_txt + txt[last:], o_idx + idx[last:]
 
 
-def ref_replace(txt, lines):
+def has_bare(lines):
+    return any(ref_parse(l) is None and ref_parse(l, 'delete') is not None for l in lines)
+
+
+def ref_replace(txt, lines, bare='ignore'):
     idx = list(range(len(txt)))
     for lin in lines:
-        p = ref_parse(lin)
+        p = ref_parse(lin, bare)
         if p is None:
             continue
         txt, idx = ref_apply(txt, idx, p[0], p[1])
@@ -210,6 +222,7 @@ def build(item):
     if h in ('subst', 'phrases'):
         txt = _text(item)
         n = len(txt)
+        alt = None
         if h == 'subst':
             expr, repl = SUBST[item['s']]
 
@@ -222,12 +235,17 @@ def build(item):
             def real(pos):
                 return utils.replace_phrases(txt, pos, list(lines))
             e_txt, e_idx = ref_replace(txt, lines)
+            if has_bare(lines):
+                alt = ref_replace(txt, lines, 'delete')
 
         def concrete(w):
             # non-monotonic concrete positions from the witness
             pos = [w.get('p%d' % i, 1000 + 7 * i) for i in range(n)]
             o_txt, o_pos = real(list(pos))
-            return _judge(o_txt, o_pos, e_txt, e_idx, pos, None, twin)
+            r = _judge(o_txt, o_pos, e_txt, e_idx, pos, None, twin)
+            if r is not None and alt is not None and not twin:
+                r = _judge(o_txt, o_pos, alt[0], alt[1], pos, None, twin)
+            return r
 
         def prop():
             from vf import driver as D
@@ -235,6 +253,8 @@ def build(item):
             o_txt, o_pos = real(list(pos))
             with D.NoTracing():
                 r = _judge(D._peek(o_txt, None), o_pos, e_txt, e_idx, pos, D, twin)
+                if r is not None and alt is not None and not twin:
+                    r = _judge(D._peek(o_txt, None), o_pos, alt[0], alt[1], pos, D, twin)
                 if r is not None:
                     # let the solver pick positions that show the difference
                     return r
